@@ -82,6 +82,11 @@ func c31Hellos() [][2]any {
 		{"+cookie(1B)", 44, []byte{0, 1, 9}},
 		{"+early_data", 42, []byte{}},
 		{"+sct", 18, []byte{}},
+		// large but legal bodies: the hello grows beyond 4 KiB, 16 KiB and towards the 64 KiB extension-block limit
+		{"+cookie(5000B)", 44, append([]byte{0x13, 0x88}, rep(0xc0, 5000)...)},
+		{"+session_ticket(6000B)", 35, rep(0x35, 6000)},
+		{"+quic_tp(20000B)", 57, append([]byte{0x3f, 0xff, 0x80, 0x00, 0x4e, 0x18}, rep(0, 19992)...)},
+		{"+unknown_ff01(40000B)", 0xff01, rep(0xee, 40000)},
 	}
 	for _, b := range base {
 		add(b[0].(string), b[1].([]byte))
@@ -193,7 +198,7 @@ func c31Scenarios(thorough bool) []*explore.Scenario {
 func init() {
 	register(&Prop{ID: "C31", Level: "exploration", Variant: "A", Scenarios: c31Scenarios,
 		Run: func(c *explore.Check, thorough bool) {
-			c.Rule = "reflection-enumerated fields of PubClientHelloMsg, PubServerHelloMsg, CertificateRequestMsgTLS13, PubCipherSuite(TLS13), KeyShare, PskIdentity, TicketKey, KeySharePrivateKeys, FinishedHash: zero, one-hot per field, present-but-empty per slice field, all-set (+ all pairs in thorough) through public->private->public with deep comparison (functions by pointer, nil vs empty distinguished); every corpus hello (all IDs, custom specs, + variants with an extra empty/boundary extension spliced in): Unmarshal.Marshal == input, and parse / clear Raw / marshal / parse gives equal field values. distinct = (type, pattern) / hello"
+			c.Rule = "reflection-enumerated fields of PubClientHelloMsg, PubServerHelloMsg, CertificateRequestMsgTLS13, PubCipherSuite(TLS13), KeyShare, PskIdentity, TicketKey, KeySharePrivateKeys, FinishedHash: zero, one-hot per field, present-but-empty per slice field, all-set (+ all pairs in thorough) through public->private->public with deep comparison (functions by pointer, nil vs empty distinguished); every corpus hello (all IDs, custom specs, + variants with an extra empty / boundary / large (5 000 - 40 000 byte) extension spliced in): Unmarshal.Marshal == input, and parse / clear Raw / marshal / parse gives equal field values. distinct = (type, pattern) / hello"
 			c.Assumptions = []string{"fields without a private counterpart by design (PubClientHelloMsg.cachedPrivateHello) are listed in inpkg/roundtrip.go"}
 			runAll(c, c31Scenarios(thorough), 0)
 		}})
